@@ -41,7 +41,8 @@ type flowStep struct {
 	Ms          int64  `json:"ms,omitempty"`
 }
 
-var flowURLs = []string{"/page1", "/page2?x=1&y=%2F", "/deep/er/path", "/page1?again=1"}
+var flowURLs = []string{"/page1", "/page2?x=1&y=%2F", "/deep/er/path", "/page1?again=1",
+	"/files/summary%3Fshare=public", "/%2Fevil.example/welcome", "/a%23b/c", "/p%25q?r=%26"}
 var jarPolicies = []string{"faithful", "faithful", "faithful", "faithful", "subset", "dup-under-other-name", "other-only", "none", "renamed", "swapped", "expired-kept", "forged", "session-as-tracking", "cross-browser"}
 var relayPolicies = []string{"echo", "echo", "echo", "echo", "other", "absent", "arbitrary"}
 
@@ -98,6 +99,17 @@ func genFlows(g *Rng, tier string) *Plan {
 		steps = append(steps, flowStep{Kind: "deliver", Resp: nresps, B: -1, Jar: "faithful", Relay: "echo"})
 		steps = append(steps, flowStep{Kind: "answer", Flow: nflows, User: g.Intn(4), Unsolicited: true})
 		steps = append(steps, flowStep{Kind: "deliver", Resp: nresps + 1, B: -1, Jar: "session-as-tracking", Relay: Pick(g, "absent", "absent", "arbitrary")})
+	}
+	if fault && g.Bool(0.12) {
+		// targeted history: the tracking cookie is seen (and refused) by the ACS early, the IdP answers late,
+		// and the response arrives after the tracking lifetime with the stale cookie still attached
+		b, d := g.Intn(k.Browsers), g.Intn(nd)
+		steps = append(steps, flowStep{Kind: "start", B: b, SP: d, URL: Pick(g, flowURLs...)})
+		steps = append(steps, flowStep{Kind: "answer", Flow: nflows, User: g.Intn(4), Unsolicited: true})
+		steps = append(steps, flowStep{Kind: "deliver", Resp: nresps, B: -1, Jar: "faithful", Relay: "echo"})
+		steps = append(steps, flowStep{Kind: "advance", Ms: k.MaxIssueDelayMs + Pick(g, int64(3000), 10_000, 75_000)})
+		steps = append(steps, flowStep{Kind: "answer", Flow: nflows, User: g.Intn(4)})
+		steps = append(steps, flowStep{Kind: "deliver", Resp: nresps + 1, B: -1, Jar: "expired-kept", Relay: "echo"})
 	}
 	for _, s := range steps {
 		p.Steps = append(p.Steps, mustJSON(s))
